@@ -3,3 +3,4 @@
 package proto
 
 func verifRowCap() int { return 0 }
+func verifStrCap() int { return 0 }
